@@ -8,7 +8,8 @@ PROP = "C09"
 PROPS_FILES = ["Nic/Props/C09.lean"]
 HARNESS = "vh-configs"
 PARALLEL = 8
-RULE = ("fixtures whose rendering passes through every unordered collection of the generation path — an API-key Secret with n clients, n API-key "
+RULE = ("every rendering is followed by a rendering of the VERY SAME extended-resource objects (as the Configurator does on ConfigMap / GlobalConfiguration / endpoints updates) and by one of freshly built equal ones: no file may be rewritten; endpoint lists also with one address listed twice. " +
+        "fixtures whose rendering passes through every unordered collection of the generation path — an API-key Secret with n clients, n API-key "
         "policies in different scopes, n tiered rate-limit groups, a VirtualServer with n upstreams / routes / header lists / error pages / splits / "
         "matches, an Ingress with n hosts × n paths and every list-valued annotation, a mergeable Ingress with n minions, a TransportServer with n "
         "upstreams; every endpoint list rotated from one rendering to the next — each rendered `reps` times through the real Configurator and "
@@ -96,6 +97,8 @@ def gen(rng, tier):
         for plus in (0, 1):
             for n in ((3, 5) if tier == "quick" else (2, 3, 4, 5, 6, 7)):
                 cases.append(dict(line="det fx=%s n=%d reps=%d plus=%d" % (fx, n, reps, plus), tags=[fx, "plus" if plus else "oss"], nontrivial=True))
+            # one address listed twice in every endpoint list (two EndpointSlice entries resolving to the same ip:port)
+            cases.append(dict(line="det fx=%s n=%d reps=%d plus=%d dup=1" % (fx, 3, max(4, reps // 3), plus), tags=[fx, "duplicate-address"], nontrivial=True))
     return cases
 
 
